@@ -149,14 +149,14 @@ class Run:
                    unresolved=set(), errors=[])
         if not self.harness_ok:
             return res
-        nproc = min(16, max(1, count // 50)) if mode == "det" else min(12, count)
+        nproc = min(16, max(1, count // 50)) if mode == "det" else (min(16, count) if mode == "detx" else min(12, count))
         per = (count + nproc - 1) // nproc
         procs = []
         for k in range(nproc):
             s0 = seed0 + k * per
             c = min(per, seed0 + count - s0)
             if c <= 0: break
-            tf = os.path.join(self.out, f"{name}.{tag}.{k}.trace")
+            tf = os.path.join(self.out, f"{name}.{mode}.{tag}.{k}.trace")
             cmd = [VH, mode, name, str(s0), str(c), tf, "1" if self.tier == "thorough" else "0"]
             procs.append((subprocess.Popen(cmd, stdout=subprocess.PIPE, stderr=subprocess.PIPE, env=ENV, text=True), tf, s0, c))
         for p, tf, s0, c in procs:
@@ -216,7 +216,7 @@ class Run:
             return "skipped"
         for r in results:
             for k in range(16):
-                tf = os.path.join(self.out, f"{r['family']}.main.{k}.trace")
+                tf = os.path.join(self.out, f"{r['family']}.{r['mode']}.main.{k}.trace")
                 if not os.path.exists(tf):
                     continue
                 lines, cur = [], []
